@@ -124,6 +124,19 @@ class Recorder:
                 self.violations.append({"mechanism": mechanism, "message": short(message, 1500),
                                         "payload": payload, "shard": self.shard})
 
+    def should_stop(self, max_violations=6, budget=None):
+        """fail fast: enough witnesses collected, or the shard's time budget is used up (the latter is recorded as inconclusive)"""
+        if len(self.violations) >= max_violations:
+            return True
+        if budget is None:
+            budget = 150 if self.tier == "quick" else 2400
+        if time.time() - self.t0 > budget:
+            if not getattr(self, "_budget_noted", False):
+                self._budget_noted = True
+                self.inconc("shard time budget (%ds) used up after %d cases; remaining cases not run" % (budget, self.evaluations))
+            return True
+        return False
+
     def inconc(self, reason):
         with self._lock:
             if len(self.inconclusive) < 50:
@@ -350,7 +363,7 @@ def main_check(prop, tier, seed, replay_path=None, jobs=None):
     if not replay_path:
         with open(os.path.join(VERIF, "evidence", "%s.json" % prop), "w") as f:
             json.dump(evidence, f, indent=1, sort_keys=True)
-    verdict = "VIOLATED" if unlisted else ("INCONCLUSIVE" if (unreached or (failures and ev == 0) or ev == 0) else "HELD-ON-OBSERVED")
+    verdict = "VIOLATED" if unlisted else ("INCONCLUSIVE" if (unreached or failures or ev == 0) else "HELD-ON-OBSERVED")
     print("%s tier=%s seed=%d evaluations=%d distinct=%d wall=%.1fs verdict=%s" % (prop, tier, seed, ev, len(distinct) + distinct_extra, wall, verdict))
     print("  monitors: " + json.dumps(counters, sort_keys=True))
     for ln in lines:
